@@ -122,7 +122,7 @@ def shoc_standard(c, *, as_coords=True, coord_kind='floatnan', extra=()):
 
 
 def ugrid(c, *, edges='none', transposed=False, start_index=0, fill='none', coords_as='vars',
-          face_dimension_attr=True, edge_transposed=False, extra=(), face_coords=False):
+          face_dimension_attr=True, edge_transposed=False, extra=(), face_coords=False, tables=(), edge_coords=False):
     """edges: 'none' | 'dimension' (edge_dimension attr only) | 'edge_node' (connectivity variable, implied
     dimension) | 'both'."""
     nnode, nface = sym_size(c, 'nnode', 0), sym_size(c, 'nface', 0)
@@ -162,6 +162,20 @@ def ugrid(c, *, edges='none', transposed=False, start_index=0, fill='none', coor
         if edges == 'dimension':
             # VALID-UGRID: a declared edge_dimension exists in the dataset (here through an edge data variable)
             add_var(ds, 'edge_data', ('nedge',), sym_array(c, 'edge_data', (nedge,), 'V'))
+    for t, dims_, shp in (('face_edge', ('nface', 'maxn'), None), ('face_face', ('nface', 'maxn'), None), ('edge_face', ('nedge', 'Two'), None)):
+        if t in tables:
+            if t == 'edge_face' and nedge is None:
+                nedge = sym_size(c, 'nedge', 0)
+            shape_ = (nface, maxn) if dims_[0] == 'nface' else (nedge, 2)
+            mesh_attrs[t + '_connectivity'] = t
+            tattrs = {'cf_role': t + '_connectivity'}
+            if start_index is not None:
+                tattrs['start_index'] = start_index
+            add_var(ds, t, dims_, sym_array(c, t, shape_, 'int', INT32), tattrs)
+    if edge_coords and nedge is not None:
+        mesh_attrs['edge_coordinates'] = 'edge_x edge_y'
+        add_var(ds, 'edge_x', ('nedge',), sym_array(c, 'edge_x', (nedge,), 'floatnan'), coord=is_coord)
+        add_var(ds, 'edge_y', ('nedge',), sym_array(c, 'edge_y', (nedge,), 'floatnan'), coord=is_coord)
     if face_coords:
         add_var(ds, 'face_x', ('nface',), sym_array(c, 'face_x', (nface,), 'floatnan'), coord=is_coord)
         add_var(ds, 'face_y', ('nface',), sym_array(c, 'face_y', (nface,), 'floatnan'), coord=is_coord)
@@ -169,6 +183,7 @@ def ugrid(c, *, edges='none', transposed=False, start_index=0, fill='none', coor
         sizes = dict(ds._sizes())
         shape = tuple(sizes[d] if d in sizes else sym_size(c, f'n_{d}', 0) for d in vdims)
         add_var(ds, name, vdims, sym_array(c, 'data_' + str(name), shape, 'V'))
+    ds._vars['mesh'].attrs = dict(mesh_attrs)
     shapes = {'face': (nface,), 'node': (nnode,)}
     dims = {'face': ('nface',), 'node': ('nnode',)}
     if nedge is not None:
